@@ -2,6 +2,11 @@ from .._core import _ConnBase, Channel, AMQPConnectionError
 
 class BlockingChannel(Channel):
     """pika.adapters.blocking_connection.BlockingChannel: same operations, results returned instead of callbacks."""
+    @property
+    def _impl(self):
+        # the asynchronous channel a BlockingChannel wraps (the messaging module reaches into it for return callbacks)
+        return _Impl(self)
+
     def exchange_declare(self, exchange, exchange_type="direct", passive=False, durable=False, auto_delete=False,
                          internal=False, arguments=None):
         box = []
@@ -40,6 +45,14 @@ class BlockingChannel(Channel):
 
     def stop_consuming(self):
         pass
+
+class _Impl(object):
+    def __init__(self, ch):
+        self.ch = ch
+    def add_on_return_callback(self, callback):
+        self.ch._on_return.append(callback)
+    def confirm_delivery(self, ack_nack_callback=None, callback=None):
+        self.ch.confirm = ack_nack_callback
 
 class BlockingConnection(_ConnBase):
     def __init__(self, parameters=None):
